@@ -524,13 +524,18 @@ def c17(ctx: Ctx) -> None:
         hl = [l for l in module_locks if l in held_all[s.id]]
         lockname = hl[0] if hl else None
         held = held_all if lockname else {}
-        probes = [n for n in gg.nodes if n.kind == 'load_sub' and isinstance(n.ast.value, ast.Name) and n.ast.value.id == table
-                  and lockname in held.get(n.id, ())]
+        # the locked re-probe in any of its forms (subscript + KeyError, .get + None test, membership test): the
+        # store may be reached only through the *miss* edge of a look-up made under the lock
+        from ..match import table_lookups
+        lk_nodes, miss_edges, _hit, _keys = table_lookups(gg, lambda e_: isinstance(e_, ast.Name) and e_.id == table)
+        probes = [n for n in lk_nodes if lockname in held.get(n.id, ())]
+        locked_miss = {id(e) for e in miss_edges if lockname in held.get(e.src.id, ())}
         enters = [n for n in gg.nodes if (n.kind == 'with_enter' and gg.res.path(n.ast) == lockname) or (
             n.kind == 'call' and isinstance(n.ast.func, ast.Attribute) and n.ast.func.attr == 'acquire'
             and gg.res.path(n.ast.func.value) == lockname)]
         starts = [e for n in enters for e in gg.succ[n.id] if e.label != 'exc']
-        w = must_pass(gg, [], [s], probes, start_edges=starts, edge_ok=lambda e: lockname in held.get(e.dst.id, ())) if lockname else []
+        w = find_path(gg, [], [s], start_edges=starts,
+                      edge_ok=lambda e: lockname in held.get(e.dst.id, ()) and id(e) not in locked_miss) if lockname else []
         is_lock = lockname in module_locks
         ctx.check('C17-R3', f'{norm(s.meta.get("stmt") or s.ast)} under {lockname} after a locked re-probe', gg.loc(s),
                   lockname is not None and is_lock and w is None and bool(probes),
@@ -554,7 +559,7 @@ def c17(ctx: Ctx) -> None:
             if getattr(n.ast, 'value', None) is orig or getattr(n.ast, 'value', None) is rn_.ast:
                 return True
             v = resolve(g, n, n.ast.value) if getattr(n.ast, 'value', None) is not None else None
-            return v is not None and (v is orig or v is rn_.ast or norm(v) == norm(orig))
+            return v is not None and (v is orig or v is rn_.ast or norm(v) == norm(orig) or norm(v) == norm(resolve(g, rn_, orig)))
         ret_ok = bool(rets_r) and all(is_the_call(n) for n in rets_r)
         ctx.check('C17-R4', f'{host_q}: return {norm(rn_.ast)}', g.loc(rn_), ok and ret_ok,
                   'the awaitable is run by the target loop, its outcome returned', 'the awaitable is not evaluated by the target loop',
